@@ -81,6 +81,10 @@ RULE = ('type-directed: a pattern of depth <= 4 (quick) / 5 (thorough) over {lit
         'displays holding T; TARGETS include instances of user subclasses of dict / list / tuple / set / '
         'frozenset / str at random positions; every call of every mode (single, sequence, history) is observed '
         'in full: glom(), verify(), matches(), snapshot of the target afterwards, `result is target`. '
+        'target dict keys that ARE the key pattern object (the class object of a type key, the function object '
+        'of a callable key) are derived from the pattern; evaluations that FAULT (comparison between incomparable '
+        'values, unhashable member of a rebuilt set) at every kind of position, observed through glom / verify / '
+        'matches (matches() must answer False). '
         'non-trivial = the pattern has a container or combinator node; '
         'distinct = distinct (pattern, default, target | targets | history, copy)')
 TRUSTED = base.TRUSTED + ['set / frozenset iteration order as observed in the same process (shipped to the model)',
@@ -398,6 +402,15 @@ class PGen:
                     keys = [self.conforming(ks)]
                 else:
                     keys = [self.conforming(ks) for _ in range(r.choice([0, 1, 1, 2]))]
+                # a target key that IS the key pattern object - the class itself for a type key, the function
+                # itself for a callable key: it is judged by the key pattern like any other key (the class
+                # `str` is no instance of str)
+                if not isinstance(kind, dict) and r.random() < 0.3:
+                    if ks['k'] == 'ty' and ks['n'] not in ('Color', 'Level'):
+                        keys = keys + [base.TYPES[ks['n']]]
+                    elif ks['k'] == 'pred':
+                        ks['form'] = 'fn'
+                        keys = keys + [base.make_pred(ks['id'], ks['fn'], 'fn')]
                 for key in keys:
                     try:
                         hash(key)
@@ -805,6 +818,33 @@ def corpus_cases():
     yield {'spec': {'k': 'dict', 'es': [['plain', L('shapes'), {'k': 'list', 'cs': [T('A0')]}]]}, 'default': None,
            'hist': [{'register': ['A0', 'K0']}, {'call': jv({'shapes': [O('K0#c'), O('K2#s')]})},
                     {'register': ['A0', 'K2']}, {'call': jv({'shapes': [O('K0#c'), O('K2#s')]})}]}
+    # target keys that ARE the key pattern object (class objects, function objects)
+    fpred = {'k': 'pred', 'id': 0, 'fn': 'is_str', 'form': 'fn'}
+    tpred = {'k': 'pred', 'id': 1, 'fn': 'truthy', 'form': 'fn'}
+    for kind in ('plain', 'req'):
+        for tn in ('str', 'int', 'object', 'Hashable', 'Mapping', 'HasLabel', 'K0'):
+            for vt in ('int', 'object'):
+                yield {'spec': {'k': 'dict', 'es': [[kind, T(tn), T(vt)]]}, 'default': None,
+                       'target': {'d': [[{'obj': 'type#' + tn}, jv(1)]]}}
+                yield {'spec': {'k': 'list', 'cs': [{'k': 'dict', 'es': [[kind, T(tn), T(vt)], ['plain', L('a'), T('int')]]}]},
+                       'default': None, 'target': {'l': [{'d': [[{'obj': 'type#' + tn}, jv(1)], [jv('a'), jv(2)]]}]}}
+        for pr, tag in ((fpred, 'function#is_str_0'), (tpred, 'function#truthy_1')):
+            yield {'spec': {'k': 'dict', 'es': [[kind, pr, T('int')]]}, 'default': None,
+                   'target': {'d': [[{'obj': tag}, jv(1)]]}}
+            yield {'spec': {'k': 'dict', 'es': [[kind, pr, T('int')]]}, 'default': None,
+                   'targets': [{'d': [[{'obj': tag}, jv(1)]]}, {'d': [[jv('s'), jv(1)]]}, {'d': []}]}
+    # evaluations that FAULT (a comparison between incomparable values) at several positions: glom() and
+    # verify() raise it, matches() answers False
+    gt0 = {'k': 'mexpr', 'l': {'m': True}, 'op': 'gt', 'r': {'c': jv(0)}}
+    for spec in (gt0, {'k': 'dict', 'es': [['plain', L('n'), {'k': 'mexpr', 'l': {'m': True}, 'op': 'ge', 'r': {'c': jv(1)}}]]},
+                 {'k': 'list', 'cs': [gt0]}, {'k': 'tuple', 'cs': [gt0, T('object')]},
+                 {'k': 'and', 'cs': [gt0, T('str')], 'd': None}, {'k': 'or', 'cs': [gt0, T('str')], 'd': None},
+                 {'k': 'not', 'c': gt0}, {'k': 'set', 'cs': [{'k': 'val', 'v': jv([1])}]},
+                 {'k': 'dict', 'es': [['plain', gt0, T('int')]]}):
+        for tgt in ('a', None, {'n': None}, ['a'], ('a', 1), {1}, {'k': 1}, 3):
+            yield {'spec': spec, 'default': None, 'target': jv(tgt)}
+            yield {'spec': spec, 'default': {'c': jv('D')}, 'target': jv(tgt)}
+        yield {'spec': spec, 'default': None, 'targets': [jv('a'), jv(3), jv({'n': None}), jv(['a'])]}
     # callables without __name__ (callable instance, functools.partial) at every kind of position
     for form in base.PRED_FORMS:
         for fn in ('never', 'raises_value', 'ret_none', 'is_pos', 'always'):
